@@ -30,7 +30,7 @@ CLAIMED = {
                 "run (every map range, package-level math/rand call, clock, crypto/rand and process read): each site is of a class that is deterministic by "
                 "construction, hand-reviewed, or one of the listed known order-sensitive sites (the full 'no sensitive site' statement is kept as refuted). Tied by "
                 "double cold builds from different source directories/TMPDIRs/caches, a warm rebuild with other parallelism, and a mixed cache state. Partial: the "
-                "Go toolchain's determinism is assumed; the classifier and the review list are trusted.",
+                "Go toolchain's determinism is assumed; the classifier and the review list are trusted. Added: a pair of cold builds with a relative -debugdir from two source directories must equal each other and the build without -debugdir.",
         "note": "Trusted: Coq kernel; translate/sites (x/tools/go/packages); the reviewed-site list; real double builds. No axioms.",
         "technique": "Coq proof of order-independence of sorted emission + regenerated site-inventory obligation + double/mixed-cache build comparison",
     },
@@ -49,7 +49,7 @@ CLAIMED = {
                 "stamp/use, the invariant 'stamp present implies linker complete whenever the lock is free', and 'whoever runs the cached linker holds the lock "
                 "and sees a complete file' in every reachable state. Tied by a translator that regenerates the call order of PatchLinker and of the link step "
                 "(lock, check, build, stamp; defer unlock before Run) and by concurrent real builds (same project twice, another flag, another project, "
-                "different -p) on empty shared caches compared with solo builds. Partial: flock/MkdirTemp semantics and cmd/go's locking are assumed.",
+                "different -p) on empty shared caches compared with solo builds. Partial: flock/MkdirTemp semantics and cmd/go's locking are assumed. Added: builds arriving after the linker was stamped while queued builds are still running, and a linker-less wave (packages cached, tool/ removed, five builds at once plus arrivals).",
         "note": "Trusted: Coq kernel; translator; OS file locks; real concurrent builds sample the schedules. No axioms.",
         "technique": "Coq invariant proof over all interleavings of a protocol model + regenerated protocol-order obligation + concurrent build runs",
     },
@@ -58,7 +58,7 @@ CLAIMED = {
                 "the point of use with a complete, stamped linker; an entry interrupted mid-write reads as a miss or as the full bytes (C07); the stamp is "
                 "written after the build in the source now; the hand-deleted-linker-plus-kill double fault is recorded as a refuted statement outside the "
                 "quantifier. Tied by the protocol-order translator and by SIGKILL of the whole process group at points spread over a cold build followed by a "
-                "rerun compared with the uninterrupted build.",
+                "rerun compared with the uninterrupted build. Added: an executable crash_search over the regenerated call order of PatchLinker (no bad kill point for the current order, one found for stamp-first: theorems C18_crash_search_clean/_finds_stamp_first) and, when the order obligation breaks and in the thorough tier, the history it names on the implementation (another version's linker planted, kill during the rebuild, rerun).",
         "note": "Trusted: Coq kernel; translator; the OS keeps a prefix of an interrupted write and drops locks of dead processes. No axioms.",
         "technique": "Coq invariant proof with a crash step at every program point + kill -9 sampling on real builds",
     },
@@ -78,7 +78,7 @@ CLAIMED = {
                 "original bytes; for every import graph, package and cache state whose present entries are correct, the reflection information garble loads "
                 "equals what an empty-cache build computes, and the state stays correct (so every subset of missing entries is covered). Tied by driving the "
                 "real go-internal cache package through generated fault sequences against get_file in Coq, and by fault enumeration on real builds (asm with "
-                "go_asm.h names, linkname): files of GARBLE_CACHE and the patched linker deleted/emptied/truncated, rebuild compared with the cold reference.",
+                "go_asm.h names, linkname): files of GARBLE_CACHE and the patched linker deleted/emptied/truncated, rebuild compared with the cold reference. Added: corpus/mod2 has a package that reaches reflection only through encoding/json; the history 'lose GARBLE_CACHE/build, edit main.go, build' is compared with a cold build of the edited source.",
         "note": "Trusted: Coq kernel; fixed-width index record and strict-prefix truncation (validated against the real package); cmd/go's own cache. No axioms.",
         "technique": "Coq proof (invariant over fault sequences; induction over DAG rank) + correspondence with the real cache package + on-disk fault enumeration",
     },
@@ -111,7 +111,7 @@ CLAIMED = {
                 "is replaced by the first matching pair, so 'F.go:1' wins over its prefix 'F.go'; identifier nodes and IDENT tokens align once the dot of dot "
                 "imports is skipped (refuted otherwise: the fixed defect); a call head on one line reverses to the regular build's line, refuted for heads "
                 "spanning lines (known finding F5). Tied by real builds of a call-shape program under several configurations: Caller/FuncForPC lines and a "
-                "panic trace of the garbled binary, reversed, against the -trimpath build, plus black-box passthrough texts.",
+                "panic trace of the garbled binary, reversed, against the -trimpath build, plus black-box passthrough texts. Added: the trace program declares functions, a type and a method with identical names in three packages.",
         "note": "Trusted: Coq kernel; naive_replace as the spec of strings.NewReplacer (C08 proves the trie against it); gc's position assignment (e2e only). No axioms.",
         "technique": "Coq proof over a hand model of the replacement table and position arithmetic + differential reverse runs on real builds",
     },
@@ -119,9 +119,9 @@ CLAIMED = {
         "text": "Round-trip theorems, for all data, lengths and random choices: the external-key layer, key-combined byte literals, simple, swap (repeated and "
                 "coinciding positions included), seed, shuffle (any permutation), split (any permutation of states, any case order), the string junk wrapper and the byte-array copy. The model decoders are tied "
                 "to the code by reading the source text each obfuscator emits back into the model's artefact types and evaluating the decoder in Coq, while the "
-                "Go compiler runs the same blocks; a generated program with every literal form and context is built with `garble -literals`. proxy.go is only exercised by the real build.",
+                "Go compiler runs the same blocks; a generated program with every literal form and context is built with `garble -literals`. proxy.go is only exercised by the real build. Added: which variables -ldflags=-X sets under -literals (computeLinkerVariableStrings) is modelled (Model/LinkFlags.v linker_var_strings), proved to select exactly the package's own variables with the name cut at the last dot, and tied by running the real function through the oracle on generated packages and flag lists.",
         "note": "Trusted: Coq kernel (vm_compute for the 3x256x256 operator tables); lit_extract.py; the Go compiler for the compiled batch. No axioms.",
-        "technique": "Coq round-trip proofs of the five codecs + in-Coq decoding of artefacts read from the emitted source + compiled batch + e2e literal program",
+        "technique": "Coq round-trip proofs of the five codecs + in-Coq decoding of artefacts read from the emitted source + compiled batch + e2e literal program + in-Coq correspondence for the -X variable selection",
     },
     "C09": {
         "text": "Theorems: the selection window is exactly 8..2048 over the constants in the source now; an encoded byte equals the plaintext byte iff the key "
@@ -136,7 +136,7 @@ CLAIMED = {
                 "text; the linker command line is characterised exactly (-importcfg and -buildid replaced in place, -X duplicates, buildVersion override, "
                 "-w -s last); garble's temp dir is first in -trimpath (both flag forms). Tied by `garble -debug` linker/compiler command lines against the "
                 "Coq model, and by scanning binaries of a marker module (unique markers in every nameable position, TMPDIR inside/outside the source "
-                "dir) for markers, Go version, build id, module info and symbol/DWARF sections. Partial: what the toolchain emits is scanned, not proved.",
+                "dir) for markers, Go version, build id, module info and symbol/DWARF sections. Partial: what the toolchain emits is scanned, not proved. Added: marker names also carry, as prefix and suffix, every identifier-like string literal of obfuscatedObjectName in /repo's current source.",
         "note": "Trusted: Coq kernel; -debug log lines; ELF parser; byte scan of the built instances. No axioms.",
         "technique": "Coq proof of the flag surgery and naming decision + in-Coq correspondence with observed link argv + marker scan of real binaries",
     },
@@ -146,16 +146,16 @@ CLAIMED = {
                 "path and name, and leaves unknown targets untouched. Tied by the decision correspondence on every identifier of a real -debugdir build, a "
                 "transformLinkname oracle stream against the Coq model, and differential runs (stdout + exit status) of two corpus modules (asm, linkname, "
                 "-X, generics, interfaces, embedding, labels, init order) under default/-tiny/-seed/-literals. Partial: compiler/linker semantics, go/printer "
-                "and the assembly rewriter are exercised, not proved.",
+                "and the assembly rewriter are exercised, not proved. Added: theorems and oracle correspondences for the assembly rewriter (replaceAsmNames vs Model/Asm.v) and for the linker's -X flags (transformLink vs Model/LinkFlags.v x_dups: duplicates carry the obfuscated import path and the Go side's hash, names cut at the last dot); the differential builds of corpus/mod1 also run under narrow GOGARBLE scopes (known finding F14: an anonymous struct type across the scope boundary), and `garble run`/`garble test` are compared with `go run`/`go test` (a defect of `garble run` with program arguments was repaired).",
         "note": "Trusted: Coq kernel; objmap; oracle; python hashlib; two fixed corpus modules (a program generator is future work). No axioms.",
-        "technique": "Coq proof over the renaming model + in-Coq correspondence on a real build's garbled tree and on linkname rewriting + differential execution",
+        "technique": "Coq proof over the renaming model + in-Coq correspondence on a real build's garbled tree and on linkname rewriting + differential execution + in-Coq correspondence for the assembly rewriter and the -X flag surgery",
     },
     "C13": {
         "text": "Theorems: the name of an object is one function of its descriptor and its declaring package's salt (no 'who asks' argument), renaming "
                 "preserves lexical resolution and interface satisfaction under the no-clash condition, a map entry equals the declaration name, reverse "
                 "inverts a functional table. Tied on real builds: every identifier of a 7-package corpus in the -debugdir tree (declaration and all uses, "
                 "cross-package) against Rename.decide+Names evaluated in Coq, `garble map` entries against declaration spellings, completeness of the "
-                "listing for package-level objects/fields/methods, and `garble reverse` on every listed name.",
+                "listing for package-level objects/fields/methods, and `garble reverse` on every listed name. Added: both tiers also run with a 15-byte -seed (map/reverse compute names in the top-level process, the build in toolexec children).",
         "note": "Trusted: Coq kernel; objmap pairing tool (go/types, objectpath); python hashlib; the corpus is one module (thorough: 3 configurations). No axioms.",
         "technique": "Coq proof over the naming-decision model + in-Coq correspondence with the -debugdir tree of a real build + map/reverse triple comparison",
     },
@@ -180,7 +180,7 @@ CLAIMED = {
         "text": "Theorems: the ToObfuscate decision never selects runtime deps (table proved to cover `go list -deps runtime` of the toolchain in use), "
                 "otherwise equals the GOGARBLE match; the matcher equals a relational glob spec, `*` matches everything, a plain path selects exactly "
                 "its subtree; unselected packages keep name/import path; the matches-nothing error is characterised. Tied by translator (std tables) "
-                "and black-box `garble map` over generated package lists x pattern lists (stub go), plus a real mixed-module build scanned for markers.",
+                "and black-box `garble map` over generated package lists x pattern lists (stub go), plus a real mixed-module build scanned for markers. Added: the mixed real module embeds types across the GOGARBLE boundary (direct, pointer, generic instantiation, alias, both directions).",
         "note": "Trusted: Coq kernel; glob model = path.Match on the class/escape-free fragment; stub go; marker scan of one real build. No axioms.",
         "technique": "Coq proof over hand model + regenerated std tables; in-Coq correspondence with black-box garble map; e2e mixed build",
     },
